@@ -42,6 +42,11 @@ func (s *seriesListener) OnMesg(m proto.Message) {
 
 // seriesFromRaw: the same series read off the raw segments by an independent reading of the record layout.
 func seriesFromRaw(segs []rawSeg) (items []string, seqs int) {
+	defer func() { // a definition segment shorter than its own counts say: reported as a differing series, not a harness crash
+		if p := recover(); p != nil {
+			items = append(items, fmt.Sprintf("MALFORMED-SEGMENT %v", p))
+		}
+	}()
 	for _, s := range segs {
 		switch s.flag {
 		case decoder.RawFlagFileHeader:
@@ -93,22 +98,29 @@ func c16(args []string) {
 			pool = append(pool, b)
 		}
 	}
-	for i := 0; i < n; i++ {
+	bnd := c16Boundary()
+	for i := -len(bnd); i < n; i++ {
 		var b []byte
-		switch r.intn(6) {
-		case 0:
-			b = pool[r.intn(len(pool))]
-		case 1:
-			b = r.mutate(pool[r.intn(len(pool))])
+		switch {
+		case i < 0:
+			b = bnd[i+len(bnd)]
+			stat("boundary_inputs", 1)
 		default:
-			ec, files := r.genChain(true)
-			out, _, err := encodeChain(ec, files)
-			if err != nil || len(out) == 0 {
-				continue
-			}
-			b = out
-			if r.chance(1, 4) {
-				b = r.mutate(b)
+			switch r.intn(6) {
+			case 0:
+				b = pool[r.intn(len(pool))]
+			case 1:
+				b = r.mutate(pool[r.intn(len(pool))])
+			default:
+				ec, files := r.genChain(true)
+				out, _, err := encodeChain(ec, files)
+				if err != nil || len(out) == 0 {
+					continue
+				}
+				b = out
+				if r.chance(1, 4) {
+					b = r.mutate(b)
+				}
 			}
 		}
 		segs, consumed, err, p := rawDecode(b)
@@ -155,10 +167,55 @@ func c16(args []string) {
 					"raw": fmt.Sprint(rawItems)[:minInt(400, len(fmt.Sprint(rawItems)))], "full": fmt.Sprint(lis.items)[:minInt(400, len(fmt.Sprint(lis.items)))]})
 			}
 		}
-		if i < 2 {
+		if i >= 0 && i < 2 {
 			emit("SAMPLE", fmt.Sprintf("%d bytes -> %d segments, consumed %d, err %v", len(b), len(segs), consumed, err))
 		}
 	}
 }
 
 func basetypeOf(b byte) basetype.BaseType { return basetype.BaseType(b) }
+
+// c16Boundary: definitions with 1 / 85 / 86 / 170 / 171 / 255 fields and 0 / 1 / 85 / 86 / 255 developer fields (where 8-bit
+// arithmetic on 3*n wraps), each followed by data records, after a developer data id and one field description; also a chain.
+func c16Boundary() [][]byte {
+	var out [][]byte
+	pre := []byte{
+		0x40, 0, 0, 207, 0, 1, 3, 1, 2, 0x00, 0, // developer_data_id: developer_data_index = 0
+		0x41, 0, 0, 206, 0, 3, 0, 1, 2, 1, 1, 2, 2, 1, 2, 0x01, 0, 0, 2, // field_description: idx 0, num 0, uint8
+	}
+	for _, nf := range []int{1, 85, 86, 170, 171, 255} {
+		for _, nd := range []int{-1, 0, 1, 85, 86, 255} {
+			rec := append([]byte(nil), pre...)
+			h := byte(0x42)
+			if nd >= 0 {
+				h |= 0x20
+			}
+			rec = append(rec, h, 0, 0, 0x10, 0xFF, byte(nf))
+			for i := 0; i < nf; i++ {
+				rec = append(rec, byte(i), 1, 2)
+			}
+			if nd >= 0 {
+				rec = append(rec, byte(nd))
+				for i := 0; i < nd; i++ {
+					rec = append(rec, 0, 1, 0)
+				}
+			}
+			for k := 0; k < 2; k++ {
+				rec = append(rec, 0x02)
+				for i := 0; i < nf+maxInt(nd, 0); i++ {
+					rec = append(rec, byte(i+k))
+				}
+			}
+			out = append(out, rawSeq(rec))
+		}
+	}
+	out = append(out, append(append([]byte(nil), out[3]...), out[10]...))
+	return out
+}
+
+func maxInt(a, b int) int {
+	if a > b {
+		return a
+	}
+	return b
+}
